@@ -192,43 +192,76 @@ def check_cmdline_api_only(ctx, rule, unit):
                  "; ".join(bad) if bad else "touches the command line only through find_first/sub_string/size/comparison", f)
 
 
-def check_loop_progress(ctx, rule, fn, progress):
-    """Every cycle of the CFG contains a progress event (progress(node) -> bool)."""
-    from .rules_own import in_cycle_blocks
-    cyc = in_cycle_blocks(fn)
-    # strongly connected components among cycle blocks
-    comps = []
-    seen = set()
-    for b in sorted(cyc):
-        if b in seen:
-            continue
-        comp = {b}
-        # blocks mutually reachable with b
-        def reach(src):
-            r, st = set(), [src]
+def check_loop_progress(ctx, rule, fn, progress, default_vars=()):
+    """Every natural loop makes progress: on every path from the loop header back to it (each back edge),
+    some variable read by the header's condition is modified (for constant conditions: one of
+    `default_vars`, decl ids), or — if `progress` is given and the header has no variables — a progress(node)
+    event occurs."""
+    dom = fn.dominators()
+    rb = fn.reachable_blocks()
+    backs = []
+    for b in rb:
+        for s_ in fn.blocks[b].live_succs():
+            if s_ in dom.get(b, ()):
+                backs.append((b, s_))
+    backs.sort(key=lambda e: (-e[1], -e[0]))
+    k = 0
+    for (u, h) in backs:
+        hb = fn.blocks[h]
+        vars_ = set()
+        if hb.cond is not None:
+            for x in fn.node(hb.cond).walk():
+                if x.kind == "DeclRefExpr" and x.get("dk") in ("Var", "ParmVar") and x.get("local"):
+                    vars_.add(x.d["d"])
+        if not vars_:
+            vars_ = set(default_vars)
+
+        def modifies(n):
+            if progress is not None:
+                return bool(progress(n))
+            if vars_:
+                if n.kind in ("UnaryOperator",) and n.op in ("++", "--"):
+                    t = n.children[0].strip()
+                    return t.kind == "DeclRefExpr" and t.d["d"] in vars_
+                if n.kind in ("BinaryOperator", "CompoundAssignOperator") and n.op.endswith("=") and n.op not in ("==", "!=", "<=", ">="):
+                    t = n.children[0].strip()
+                    return t.kind == "DeclRefExpr" and t.d["d"] in vars_
+                return False
+            return bool(progress and progress(n))
+        # loop body = blocks that reach u without leaving through h
+        body = {u}
+        st = [u]
+        while st:
+            x = st.pop()
+            if x == h:
+                continue
+            for p in fn.blocks[x].preds:
+                if p not in body and p in rb:
+                    body.add(p)
+                    st.append(p)
+        body.add(h)
+        prog_blocks = {b for b in body if any(modifies(n) for n in fn.blocks[b].nodes())}
+        # can we go h -> ... -> u inside the body avoiding progress blocks?
+        stuck = False
+        if h not in prog_blocks:
+            seen, st = set(), [h]
             while st:
                 x = st.pop()
+                if x in seen:
+                    continue
+                seen.add(x)
+                if x == u and x not in prog_blocks:
+                    stuck = True
+                    break
                 for y in fn.blocks[x].live_succs():
-                    if y not in r:
-                        r.add(y)
+                    if y in body and y not in prog_blocks and y != h:
                         st.append(y)
-            return r
-        rb = reach(b)
-        for c in cyc:
-            if c in rb and b in reach(c):
-                comp.add(c)
-        seen |= comp
-        comps.append(comp)
-    for i, comp in enumerate(sorted(comps, key=lambda c: -max(c))):
-        has = any(progress(n) for b in comp for n in fn.blocks[b].nodes())
-        loc = ""
-        for b in sorted(comp, reverse=True):
-            ns = fn.blocks[b].nodes()
-            if ns:
-                loc = ns[0].loc
-                break
-        ctx.inst(rule, "%s: loop #%d" % (fn.sig, i + 1), has, loc,
-                 "loop body contains a progress event: %s" % has, fn)
+        k += 1
+        ns = hb.nodes()
+        loc = ns[0].loc if ns else fn.loc
+        ctx.inst(rule, "%s: loop #%d" % (fn.sig, k), not stuck, loc,
+                 "a path around the loop modifies none of the variables its condition depends on" if stuck else
+                 "every path around the loop makes progress", fn)
 
 
 # ---- C19 --------------------------------------------------------------------------------------
